@@ -1,13 +1,172 @@
-/- C03 — first layer; see DESIGN.md §5 -/
-import UBidi.Model.Reorder
-import UBidi.Spec.UAX9
-import UBidi.Spec.Reorder
-namespace UBidi.Props.C03
-open UBidi
+/-
+  C03 — "Line levels apply rule L1 exactly, and only inside the line".
 
-/-- the analysis of the empty text is empty and does not fail -/
-theorem empty_text (ds : DataSource) (d : Option Nat) :
-    (bidiInfo ds (Text.ofScalars []) d).levels = [] ∧ (bidiInfo ds (Text.ofScalars []) d).err = none := by
-  constructor <;> rfl
+  Model: `reorderLevels` / `reorderedLevels` / `reorderedLevelsPerChar` (UBidi/Model/Reorder.lean,
+  a transcription of `reorder_levels`, `reordered_levels`, `reordered_levels_per_char`).
+  Spec : `Spec.lineLevels` (UBidi/Spec/Reorder.lean), rule L1 per character, declaratively.
+
+  Proof: the invariant of the forward scan is `Lemmas.C03.scan_eq` (UBidi/Lemmas/C03Scan.lean).
+-/
+import UBidi.Model.Reorder
+import UBidi.Spec.Reorder
+import UBidi.Lemmas.C03Line
+namespace UBidi.Props.C03
+open UBidi BidiClass UBidi.Lemmas.C03
+
+/-- one level per character → one level per code unit -/
+def expand (t : Text) (xs : List Nat) : List Nat :=
+  (t.segs.zip xs).flatMap (fun (s, x) => List.replicate s.len x)
+
+/-- `(original class, resolved level)` of every character of `t`, read at its first code unit -/
+def perChar (t : Text) (cls : List BidiClass) (lv : List Nat) : List (BidiClass × Nat) :=
+  t.segs.map (fun s => (cls.getD s.start .ON, lv.getD s.start 0))
+
+/-- all code units of one character hold the same value -/
+def UniformOn {α} (t : Text) (xs : List α) : Prop :=
+  ∀ s ∈ t.segs, ∀ j, j < s.len → xs[s.start + j]? = xs[s.start]?
+
+/-- The scan of `reorder_levels` computes exactly the declarative rule L1 on every
+    well-formed line whose resolved levels are uniform within characters (that is what
+    property C08 provides), and the `assert_eq!(reset_to, None)` is unreachable.
+    The classes are only read at character starts, so nothing is required of `cls`
+    (`perChar` reads them at the same places). -/
+theorem C03_l1 (t : Text) (hwf : t.WF) (cls : List BidiClass) (lv : List Nat) (pl : Nat)
+    (hl : lv.length = t.len) (hul : UniformOn t lv) :
+    (reorderLevels cls lv t pl).1 = expand t (Spec.lineLevels pl (perChar t cls lv)) ∧
+    (reorderLevels cls lv t pl).2 = none := by
+  have h := scan_eq t.enc cls pl t.segs lv (some 0) pl none 0 t.len hwf.tiles hwf.lens hl
+    (Nat.le_refl _) hul
+  rw [reorderLevels_eq_finish, h]
+  refine ⟨?_, rfl⟩
+  show target cls pl lv (some 0) pl 0 t.segs = expandS t.segs (Spec.l1 pl pl (perCharS t.segs cls lv))
+  simp [target]
+
+/-- so the line levels are again uniform within every character, and as long as the line -/
+theorem C03_uniform (t : Text) (hwf : t.WF) (cls : List BidiClass) (lv : List Nat) (pl : Nat)
+    (hl : lv.length = t.len) (hul : UniformOn t lv) :
+    UniformOn t (reorderLevels cls lv t pl).1 ∧ (reorderLevels cls lv t pl).1.length = t.len := by
+  rw [(C03_l1 t hwf cls lv pl hl hul).1]
+  have := expandS_uniform t.segs (Spec.lineLevels pl (perChar t cls lv)) [] 0 t.len hwf.tiles
+    (by simp [Spec.lineLevels, length_l1, perChar]) rfl
+  rw [List.nil_append] at this
+  exact this
+
+/-- `reorder_levels` never changes the length of the level vector (no hypotheses) -/
+theorem C03_length (cls : List BidiClass) (lv : List Nat) (t : Text) (pl : Nat) :
+    (reorderLevels cls lv t pl).1.length = lv.length :=
+  length_reorderLevels cls lv t pl
+
+/-- Only inside the line: for every input (also when the call panics, where the Model
+    returns the levels as they were) the length is kept and the code units outside
+    `[a, b)` keep their level. -/
+theorem C03_outside (t : Text) (classes : List BidiClass) (levels : List Nat) (pl a b : Nat) :
+    let r := (reorderedLevels t classes levels pl a b).1
+    r.length = levels.length ∧ (∀ i, i < a ∨ b ≤ i → r[i]? = levels[i]?) := by
+  intro r
+  show (reorderedLevels t classes levels pl a b).1.length = levels.length ∧
+    ∀ i, i < a ∨ b ≤ i → (reorderedLevels t classes levels pl a b).1[i]? = levels[i]?
+  unfold reorderedLevels
+  split
+  · exact ⟨rfl, fun _ _ => rfl⟩
+  · split
+    · exact ⟨rfl, fun _ _ => rfl⟩
+    · split
+      · exact ⟨rfl, fun _ _ => rfl⟩
+      · rename_i h1 h2 _
+        simp only [Bool.or_eq_true, decide_eq_true_eq, not_or, Nat.not_lt] at h1 h2
+        have hlen := length_reorderLevels (slice classes a b) (slice levels a b) (t.subrange a b) pl
+        have hsl : (slice levels a b).length = b - a := by simp [slice]; omega
+        rw [hsl] at hlen
+        dsimp only
+        constructor
+        · simp only [List.length_append, List.length_take, List.length_drop, hlen]; omega
+        · intro i hi
+          rcases hi with hi | hi
+          · rw [List.append_assoc, List.getElem?_append_left (by simp; omega),
+              List.getElem?_take_of_lt hi]
+          · rw [List.getElem?_append_right (by simp [hlen]; omega)]
+            simp only [List.length_append, List.length_take, hlen, List.getElem?_drop]
+            congr 1; omega
+
+/-- the per-character variant is the per-code-unit variant sampled at character starts,
+    and it fails exactly when the per-unit variant does -/
+theorem C03_per_char (t : Text) (classes : List BidiClass) (levels : List Nat) (pl a b : Nat) :
+    (reorderedLevelsPerChar t classes levels pl a b).1
+      = t.segs.map (fun s => (reorderedLevels t classes levels pl a b).1.getD s.start 0) ∧
+    (reorderedLevelsPerChar t classes levels pl a b).2 = (reorderedLevels t classes levels pl a b).2 :=
+  ⟨rfl, rfl⟩
+
+/-- a line on character boundaries of a well-formed text is a well-formed text -/
+theorem C03_subrange_wf (t : Text) (hwf : t.WF) (a b : Nat) (hab : a ≤ b)
+    (ha : t.isBoundary a = true) (hbb : t.isBoundary b = true) : (t.subrange a b).WF :=
+  subrange_WF t hwf a b hab ha hbb
+
+/-- The line levels of `reordered_levels(line)`: no panic, unchanged outside the line, and
+    inside the line exactly rule L1 of the Spec applied to the characters of the line
+    (nothing before `a` or after `b` influences them). -/
+theorem C03_line (t : Text) (hwf : t.WF) (classes : List BidiClass) (levels : List Nat) (pl a b : Nat)
+    (hab : a ≤ b) (ha : t.isBoundary a = true) (hbb : t.isBoundary b = true)
+    (hc : classes.length = t.len) (hl : levels.length = t.len) (hul : UniformOn t levels) :
+    (reorderedLevels t classes levels pl a b).2 = none ∧
+    (reorderedLevels t classes levels pl a b).1
+      = levels.take a ++ expand (t.subrange a b) (Spec.lineLevels pl
+          (perChar (t.subrange a b) (slice classes a b) (slice levels a b))) ++ levels.drop b := by
+  have hb : b ≤ t.len := by
+    rcases (isBoundary_iff t b).1 hbb with h | ⟨s, hs, h⟩
+    · omega
+    · have := (SegsFrom_bounds hwf.tiles).2 s hs; omega
+  have hwf' := subrange_WF t hwf a b hab ha hbb
+  have hsl : (slice levels a b).length = (t.subrange a b).len := by
+    simp [slice, Text.subrange]; omega
+  have hu' : UniformOn (t.subrange a b) (slice levels a b) :=
+    subrange_uniform t hwf a b hab ha hbb levels hul
+  obtain ⟨h1, h2⟩ := C03_l1 (t.subrange a b) hwf' (slice classes a b) (slice levels a b) pl hsl hu'
+  unfold reorderedLevels
+  rw [if_neg (by simp; omega), if_neg (by simp; omega), if_neg (by simp [ha, hbb])]
+  dsimp only
+  rw [h1, h2]
+  exact ⟨rfl, rfl⟩
+
+/-! ### non-vacuity and tests -/
+
+/-- `a`, PDF (3 UTF-8 units), space, U+10000 (4 units), TAB, space, PDF -/
+def exText : Text := Text.ofScalars [0x61, 0x202C, 0x20, 0x10000, 0x9, 0x20, 0x202C]
+def exCls : List BidiClass :=
+  [L, PDF, PDF, PDF, WS, R, R, R, R, S, WS, BN, BN, BN]
+def exLv : List Nat := [2, 3, 3, 3, 4, 5, 5, 5, 5, 6, 7, 8, 8, 8]
+
+theorem exText_wf : exText.WF :=
+  ⟨by simp [exText, Text.ofScalars, Text.layout, Text.totalLen, Enc.charLen, utf8Len, SegsFrom],
+   by decide⟩
+
+theorem exLv_uniform : UniformOn exText exLv := by unfold UniformOn; decide
+
+/-- non-vacuity: the hypotheses of `C03_l1` / `C03_uniform` hold for a line with multi-unit
+    characters, a removed character, a separator and trailing whitespace -/
+example : (reorderLevels exCls exLv exText 1).1
+    = expand exText (Spec.lineLevels 1 (perChar exText exCls exLv)) ∧
+    (reorderLevels exCls exLv exText 1).2 = none :=
+  C03_l1 exText exText_wf exCls exLv 1 rfl exLv_uniform
+
+/-- test (evaluation on one literal): what both sides are -/
+example : (reorderLevels exCls exLv exText 1).1 = [2, 2, 2, 2, 4, 5, 5, 5, 5, 1, 1, 1, 1, 1] := by decide
+example : Spec.lineLevels 1 (perChar exText exCls exLv) = [2, 2, 4, 5, 1, 1, 1] := by decide
+
+/-- non-vacuity of `C03_line`: the line `[4, 10)` (space, U+10000, TAB) of `exText` -/
+example : (reorderedLevels exText exCls exLv 1 4 10).2 = none ∧
+    (reorderedLevels exText exCls exLv 1 4 10).1
+      = exLv.take 4 ++ expand (exText.subrange 4 10) (Spec.lineLevels 1
+          (perChar (exText.subrange 4 10) (slice exCls 4 10) (slice exLv 4 10))) ++ exLv.drop 10 :=
+  C03_line exText exText_wf exCls exLv 1 4 10 (by decide) (by decide) (by decide) rfl rfl exLv_uniform
+
+/-- test: the whitespace before the separator is reset only inside the line -/
+example : (reorderedLevels exText exCls exLv 1 4 10).1 = [2, 3, 3, 3, 4, 5, 5, 5, 5, 1, 7, 8, 8, 8] := by
+  decide
+
+/-- test: the uniformity hypothesis of `C03_l1` cannot be dropped — with levels that differ
+    inside a character the scan keeps them (the Spec reads the first unit only) -/
+example : (reorderLevels [R, R] [1, 2] (Text.ofScalars [0x5D0]) 0).1 = [1, 2] ∧
+    expand (Text.ofScalars [0x5D0]) (Spec.lineLevels 0 (perChar (Text.ofScalars [0x5D0]) [R, R] [1, 2]))
+      = [1, 1] := by decide
 
 end UBidi.Props.C03
